@@ -25,5 +25,5 @@ git checkout -q -- .
 rm -rf $wt/.tmp
 mkdir -p /verif/seeded/$p-$k && cp $src/patch.diff $src/demo_test.go $src/meta.json /verif/seeded/$p-$k/
 echo "== govc check on /repo with the change applied"
-cd /repo && git apply $src/patch.diff && (cd /verif && GOVC_WORKERS=6 ./bin/govc check --prop $p 2>&1 | grep "^VIOL\|^ERROR\|^FAILED\|^$p" | cut -c1-250); git -C /repo checkout -q -- .
+cd /repo && git apply $src/patch.diff && (cd /verif && GOVC_WORKERS=6 ./bin/govc check --prop $p 2>&1 | grep "^VIOL\|^ERROR\|^FAILED\|^$p" | cut -c1-250); git -C /repo apply -R $src/patch.diff
 git -C /repo status --short | grep -v Static
